@@ -686,6 +686,18 @@ func oracleC07(c *oracleCtx) {
 	r := c.r
 	quotes := []byte{'"', '\''}
 
+	// quoted property keys that look like names or numbers: `{"10": 1}` and `{10: 1}` name the same property, but a bare
+	// number names the property of its canonical text — beyond 2^53, with leading zeros, exponents, radix prefixes, signs
+	for _, body := range []string{"name", "a1", "$", "_x", "if", "10", "0", "007", "010", "9007199254740991", "9007199254740993", "1234567890123456789",
+		"1000000000000000000000", "123456789012345678901234567890", "1e3", "1E21", "0x10", "0b11", "1.50", ".5", "5.", "-1", "+1", "1_000", " 1", "1 ", "Infinity", "NaN",
+		"a-b", "a b", "", "\u0031", "\x31\x30", "ßx", "日本"} {
+		for _, q := range quotes {
+			for _, cfg := range []string{"c", "p:2020:1", "p:09:0", "pm:20202020:1"} {
+				k.keyCheck(c07Quote(q, body), cfg, false)
+			}
+		}
+	}
+
 	// every \xHH, both quote styles, both digit cases; alone and between text
 	for v := 0; v < 256 && !c.expired(); v++ {
 		for _, q := range quotes {
